@@ -161,8 +161,12 @@ def impOptions (s : Sig) (b : Base) (uptime : Option Int) (c : Choices) : List S
   alignOptions (impOptionsGo s b uptime s.layout c.opt)
 
 /-- `dict(new_options).get("MSS")`: the last MSS tuple -/
-def lastMss (l : List SOpt) : Option Nat :=
-  l.foldl (fun acc o => match o with | .mss v => some v | _ => acc) none
+def lastMssStep (acc : Option Nat) (o : SOpt) : Option Nat :=
+  match o with
+  | .mss v => some v
+  | _ => acc
+
+def lastMss (l : List SOpt) : Option Nat := l.foldl lastMssStep none
 
 /-- `_impersonate_window` -/
 def impWindow (s : Sig) (b : Base) (opts : List SOpt) (mtu : Nat) (c : Choices) : Except ImpErr Nat :=
@@ -175,10 +179,12 @@ def impWindow (s : Sig) (b : Base) (opts : List SOpt) (mtu : Nat) (c : Choices) 
   | .mtu => .ok (mtu * s.wsize)
   | .any => .ok b.window
 
-/-- `_impersonate_ip` (IPv4): the 3 flag bits -/
-def impIpFlags (s : Sig) (f : Nat) : Nat :=
-  let f1 := if s.quirks .df then setBit f 2 else clearBit f 2
-  if s.quirks .nzMbz then setBit f1 4 else clearBit f1 4
+/-- `_impersonate_ip` (IPv4): the 3 flag bits; the two quirks that matter as Booleans -/
+def impIpFlagsB (df mbz : Bool) (f : Nat) : Nat :=
+  let f1 := if df then setBit f 2 else clearBit f 2
+  if mbz then setBit f1 4 else clearBit f1 4
+
+def impIpFlags (s : Sig) (f : Nat) : Nat := impIpFlagsB (s.quirks .df) (s.quirks .nzMbz) f
 
 /-- `_impersonate_ip` (IPv4): the identification field -/
 def impIpId (s : Sig) (b : Base) (c : Choices) : Nat :=
